@@ -2,7 +2,7 @@
 from . import common as C
 
 LEAN_MODULE = "Urandom.Props.C17"
-RULE = ("requests: System<N> for N in {0,1,2,3,4,5,7,8,31,64} under random interleavings of next_u32 / next_u64 / fill_bytes(len) / jump with panics caught per operation, against a "
+RULE = ("requests: System<N> for N in {0,1,2,3,4,5,7,8,31,64} and, with draw sequences that walk through whole blocks, {65,100,127,128,200,1000} under random interleavings of next_u32 / next_u64 / fill_bytes(len) / jump with panics caught per operation, against a "
         "scripted entropy source (the crate is built without `getrandom` and linked against the harness's getentropy_raw): tagged words, failure injected at every fetch index, a "
         "failing fetch scribbles over the destination first; entropy-seeded constructors X::new() with the state read back through serde. "
         "oracle: every returned word is a word of a successful fetch, returned at most once and in fetch order; never the initial zeros or scribbled content. "
@@ -10,6 +10,7 @@ RULE = ("requests: System<N> for N in {0,1,2,3,4,5,7,8,31,64} under random inter
 ASSUMPTIONS = ["the `getrandom` back end (default feature) cannot be made to fail and is covered by code reading only; its success path is the same code above getentropy_uninit"]
 
 NS = [0, 1, 2, 3, 4, 5, 7, 8, 31, 64]
+BIG = [65, 100, 127, 128, 200, 1000]          # blocks of more than 256 bytes: long draw sequences that walk through a whole block
 
 
 def generate(r, tier, build):
@@ -28,6 +29,19 @@ def generate(r, tier, build):
             for _ in range(r.range(1, 3)):
                 script[r.below(nf)] = "fail"
         reqs.append("system n=%d script=%s ops=%s" % (N, ",".join(script), ",".join(ops)))
+    for _ in range(12 * k):
+        for N in BIG:
+            ops = []
+            left = N + r.below(N) + 3
+            while left > 0:
+                x = r.below(10)
+                op = "u32" if x < 5 else "u64" if x < 9 else "fill:%d" % r.choice([1, 3, 4, 9, 255, 257])
+                ops.append(op)
+                left -= 2 if op == "u64" else 1
+            script = ["ok"] * 6
+            if r.chance(1, 3):
+                script[r.below(4)] = "fail"
+            reqs.append("system n=%d script=%s ops=%s" % (N, ",".join(script), ",".join(ops)))
     for gen in ["xoshiro", "splitmix", "wyrand", "chacha8", "chacha12", "chacha20"]:
         reqs.append("newgen gen=%s script=" % gen)
         reqs.append("newgen gen=%s script=fail" % gen)
@@ -37,7 +51,8 @@ def generate(r, tier, build):
 def corpus(build):
     return ["system n=2 script=ok,fail,ok ops=u32,u64,u32,u32,u64",          # D6: a failed fetch in next_u64 must not be served by a later next_u32
             "system n=3 script=ok,fail,ok ops=u64,u64,u32,u32",
-            "system n=1 script= ops=u32,u64,u32", "system n=0 script= ops=u32,u64,fill:3"]
+            "system n=1 script= ops=u32,u64,u32", "system n=0 script= ops=u32,u64,fill:3",
+            "system n=65 script= ops=" + ",".join(["u32"] * 70), "system n=100 script= ops=" + ",".join(["u64"] * 55), "system n=1000 script= ops=" + ",".join(["u64"] * 505)]
 
 
 def classify(req, model):
